@@ -7,11 +7,113 @@ constructor and `embedUsing` (needs the generated keyword enumeration).  Core Le
 namespace TapkeeVerif.Front
 open TapkeeVerif.Gen
 
+/-- Bound expressions occurring as predicate arguments / guards in `validate()`: C++ arithmetic over literals,
+    `n_vectors`, `current_dimension` and the values of other parameters.  Typing follows C++: an operation on two
+    `int` operands is an `int` operation (truncating division), anything else is carried out in `double`, which the
+    model takes to be exact (DESIGN §9); `static_cast<IndexType>` truncates toward zero. -/
+inductive BExpr where
+  | intLit (i : Int)
+  | realLit (q : Rat)
+  | nVectors
+  | currentDimension
+  | param (kw : Kw)                 -- `parameters[kw]` converted to the keyword's (numeric) type
+  | toInt (a : BExpr)               -- static_cast<IndexType>(a)
+  | toReal (a : BExpr)              -- static_cast<ScalarType>(a)
+  | add (a b : BExpr) | sub (a b : BExpr) | mul (a b : BExpr) | div (a b : BExpr)
+  | neg (a : BExpr)
+  deriving DecidableEq, Repr, Inhabited
+
+def BExpr.isInt : BExpr → Bool
+  | .intLit _ => true
+  | .realLit _ => false
+  | .nVectors => true
+  | .currentDimension => true
+  | .param kw => decide (kw.ty = Ty.int)
+  | .toInt _ => true
+  | .toReal _ => false
+  | .add a b | .sub a b | .mul a b | .div a b => a.isInt && b.isInt
+  | .neg a => a.isInt
+
+/-- the parameters an expression reads -/
+def BExpr.params : BExpr → List Kw
+  | .param kw => [kw]
+  | .toInt a | .toReal a | .neg a => a.params
+  | .add a b | .sub a b | .mul a b | .div a b => a.params ++ b.params
+  | _ => []
+
+/-- what a bound expression can see -/
+structure BEnv where
+  n : Int                 -- n_vectors
+  dim : Int               -- current_dimension (0 when the features callback is a dummy)
+  val : Kw → Rat          -- numeric value of a parameter
+
+/-- `static_cast<IndexType>` of a `double`: truncation toward zero -/
+def truncRat (q : Rat) : Int := Int.tdiv q.num q.den
+
+def BExpr.eval (env : BEnv) : BExpr → Rat
+  | .intLit i => (i : Rat)
+  | .realLit q => q
+  | .nVectors => (env.n : Rat)
+  | .currentDimension => (env.dim : Rat)
+  | .param kw => env.val kw
+  | .toInt a => (truncRat (a.eval env) : Rat)
+  | .toReal a => a.eval env
+  | .add a b => a.eval env + b.eval env
+  | .sub a b => a.eval env - b.eval env
+  | .mul a b => a.eval env * b.eval env
+  | .div a b =>
+      if a.isInt && b.isInt then ((Int.tdiv (a.eval env).num (b.eval env).num : Int) : Rat)   -- int / int truncates
+      else a.eval env / b.eval env
+  | .neg a => - a.eval env
+
+/-- predicates of tapkee/predicates.hpp with their template argument -/
+inductive Pred where
+  | positivity (ty : Ty)
+  | nonNegativity (ty : Ty)
+  | inRange (ty : Ty) (lo hi : BExpr)         -- lo ≤ v < hi
+  | inClosedRange (ty : Ty) (lo hi : BExpr)   -- lo ≤ v ≤ hi
+  deriving DecidableEq, Repr, Inhabited
+
+def Pred.ty : Pred → Ty
+  | .positivity t | .nonNegativity t | .inRange t _ _ | .inClosedRange t _ _ => t
+
+def Pred.params : Pred → List Kw
+  | .inRange _ lo hi | .inClosedRange _ lo hi => lo.params ++ hi.params
+  | _ => []
+
+/-- does the numeric value `v` satisfy the predicate? -/
+def Pred.holds (env : BEnv) (v : Rat) : Pred → Prop
+  | .positivity _ => 0 < v
+  | .nonNegativity _ => 0 ≤ v
+  | .inRange _ lo hi => lo.eval env ≤ v ∧ v < hi.eval env
+  | .inClosedRange _ lo hi => lo.eval env ≤ v ∧ v ≤ hi.eval env
+
+instance (env : BEnv) (v : Rat) (p : Pred) : Decidable (p.holds env v) := by
+  cases p <;> unfold Pred.holds <;> infer_instance
+
 /-- `parameters[kw].checked().satisfies(pred)[.orThrow()];` -/
 structure VStep where
   kw : Kw
   pred : Pred
   orThrow : Bool
+  deriving DecidableEq, Repr, Inhabited
+
+/-- comparison operators of a guard -/
+inductive Cmp where
+  | gt | ge | lt | le | eq
+  deriving DecidableEq, Repr, Inhabited
+
+def Cmp.holds (c : Cmp) (a b : Rat) : Prop :=
+  match c with
+  | .gt => b < a | .ge => b ≤ a | .lt => a < b | .le => a ≤ b | .eq => a = b
+
+instance (c : Cmp) (a b : Rat) : Decidable (c.holds a b) := by
+  cases c <;> unfold Cmp.holds <;> infer_instance
+
+/-- a statement of `validate()`: a check, or `if (lhs cmp rhs) check;` -/
+inductive VStmt where
+  | check (c : VStep)
+  | guarded (lhs : BExpr) (cmp : Cmp) (rhs : BExpr) (c : VStep)
   deriving DecidableEq, Repr, Inhabited
 
 /-- events inside one statement of an `embed()` body, in evaluation order -/
